@@ -1,6 +1,6 @@
 (** Proofs about Core/Render.v: `capture` binds exactly the text its block
     would have written, and writes nothing itself. *)
-From LQ Require Import Core.Render Proofs.Render_buffer Proofs.Render_counters.
+From LQ Require Import Core.Render Proofs.Render_buffer Proofs.Render_counters Proofs.Render_fuel.
 From Coq Require Import Lia.
 
 (** what the capture tag does: the block runs against a fresh buffer; the
@@ -153,3 +153,29 @@ Example with_example :
   text (bf (render g [] 3 (NWith [([120]%N, ELit (VInt 42))] [NOutput (EPath [120]%N [])]) c empty_buf))
   = [52; 50]%N.
 Proof. vm_compute. repeat split; reflexivity. Qed.
+
+(** * unless *)
+
+(** `unless c` is `if not c`: same branch, same alternatives, same errors
+    (given fuel enough to evaluate the condition). *)
+Theorem unless_is_if_not g ld f cond conseq alts els c b :
+  eval f c cond <> EFuel ->
+  render g ld (S (S f)) (NUnless cond conseq alts els) c b
+  = render g ld (S (S f)) (NIf (ENot cond) conseq alts els) c b.
+Proof.
+  intro H.
+  change (render g ld (S (S f))) with (render_step g ld (eval (S f)) (render g ld (S f))).
+  cbn [render_step].
+  change (eval (S f) c (ENot cond)) with (eval_step (eval f) c (ENot cond)).
+  cbn [eval_step].
+  rewrite (Render_fuel.eval_fuel_mono f c cond H).
+  destruct (eval f c cond) as [v| | |]; try reflexivity.
+  destruct (is_truthy v); reflexivity.
+Qed.
+
+Example unless_example :
+  let g := {| suppress := false; depth_limit := 30 |} in
+  let c := fresh_ctx 30 [] [] in
+  eval 1 c (ELit VNil) <> EFuel /\
+  text (bf (render g [] 3 (NUnless (ELit VNil) [NContent [97]%N false] [] None) c empty_buf)) = [97]%N.
+Proof. vm_compute. split; [discriminate|reflexivity]. Qed.
